@@ -1,8 +1,9 @@
 """C09 — cursor position and mouse hit-testing agree with what is drawn.
 
-A case is ``{"tree": spec, "mode": "B"|"F", "dc": n, "dr": n, "ev": i, "ops": [op, ...]}`` with
-``op = ["click", kind, i] | ["text", leaf, what, new_text] | ["key", i]`` (older replay files carry
-``"clicks": [[kind, i], ...]`` instead; they are read as click ops).
+A case is ``{"tree": spec, "mode": "B"|"F", "dc": n, "dr": n, "ev": i, "ops": [op, ...], "ord": bits}`` with
+``op = ["click", kind, i] | ["text", leaf, what, new_text] | ["key", i] | ["set", target, spelling, value] |
+["size", dc, dr, cell]`` (older replay files carry ``"clicks": [[kind, i], ...]`` instead; they are read as
+click ops; without ``"ord"`` every step asks the cursor before anything is drawn).
 ``spec`` is a JSON description of a nesting of Pile / Columns / GridFlow / Frame / Filler / Padding /
 Overlay / BoxAdapter / LineBox / AttrMap / ListBox.  It is realised **type-directed by sizing mode**
 (``Planner.plan``): the parent and the item option decide whether a child is a flow or a box widget
@@ -21,6 +22,11 @@ minimum widths, margins, dividers, weights) and an upper bound of the rows it ne
 ``given`` sizes inside the tree are ``need + extra``, the root size is ``need + (dc, dr)``.  The **fit
 precondition** is then verified on the render: every probe was rendered, its attribute covers a full
 rectangle of exactly the size of the canvas the probe returned; otherwise the case is discarded.
+One reading of the precondition is made explicit for the ListBox, the one container built to show only part
+of its children (spec ``"cut"``: it gets that many rows less than its items need together): "every widget *on the
+way*" - an item that is not rendered with focus may be scrolled out or cut by the edge of the list box; such a
+probe is not "a cell where a child widget is drawn", nothing is asserted about its cells in that drawing.  The
+leaf that is rendered with focus must be there in full, as every probe outside a ListBox.
 
 Oracle (per case, all cells of the rendered area):
 
@@ -29,15 +35,29 @@ Oracle (per case, all cells of the rendered area):
    tree is rendered again ("reports without rendering": containers keep offsets of their own, e.g. the
    ListBox's offset_rows / inset, which a step can leave stale) and after.  A step is a button-1 press, a
    change of what a leaf shows through its public setter (``set_edit_text`` / ``set_caption`` / ``set_text``
-   / ``set_label``: rows and natural width of the leaf may grow or shrink under the containers' feet) or a
-   key sent to a selectable root (cursor keys, paging, characters, enter, backspace/delete).  The fit
+   / ``set_label``: rows and natural width of the leaf may grow or shrink under the containers' feet), a
+   key sent to a selectable root (cursor keys, paging, characters, enter, backspace/delete), a focus or
+   alignment setter of a container or the edit position of an Edit (``apply_set``: every spelling the library
+   supports, e.g. ``Columns.focus_position = n`` / ``set_focus_column(n)`` / ``set_focus(n | widget)`` /
+   ``focus_col = n``, ``ListBox.set_focus(n[, coming_from])`` / ``set_focus_valign(v)``, ``Padding.align = v``,
+   ``Overlay.set_overlay_parameters``) or a resize (``"size"``: all later calls carry the new size).  The fit
    precondition is re-established on the drawing that follows each step; a step after which the tree no
-   longer fits (or a key that raises: keys are not this property's) ends the history, nothing is reported.
+   longer fits (or a key / setter that raises: what they do is not this property's) ends the history, nothing
+   is reported.  The tree lives as it does under a screen: the canvas of the previous drawing stays
+   referenced, so the canvas cache answers for whatever the step did not invalidate.  Bit j of ``"ord"`` picks
+   the order after step j: 0 - the cursor is asked before anything is drawn; 1 - the tree is first rendered
+   with those canvases kept (the next screen update) and then asked, and the answer must equal the cursor of
+   *that* rendering as well as the cursor of the drawing made with an empty cache (on which the fit
+   precondition is established).
 2. for every cell whose attribute is a probe X: ``root.mouse_event(size, ev, button, c, r, True)`` makes X
    log ``(c - left_X, r - top_X)`` and no other probe log anything.  The all-cells sweep uses an event
    that changes no state (release / buttons 2, 3); button-1 presses are steps of the history on the same
    tree (containers move the focus, Edit moves its cursor, the tree is re-rendered and re-read after each),
-   and the all-cells sweep is repeated on the drawing of the state the history ends in.
+   and the all-cells sweep is repeated on the drawing of the state the history ends in.  The same clause
+   "without rendering": the state-free event is also sent to trees that were *never* drawn or asked anything
+   (a fresh tree per event; corners and centre of every probe's rectangle, read off the first drawing of a
+   twin), and, in a ``"size"`` step, to the live tree as the first call that carries the new size (input that
+   arrives between a resize and the next screen update); that event is judged on the drawing that follows.
 3. for every cell inside the rectangle of a selectable probe X such that every widget from the root down
    to X implements ``move_cursor_to_coords`` (Frame, ListBox, Overlay do not: nothing asserted below
    them): on a *fresh* tree ``root.move_cursor_to_coords(size, c, r)`` is truthy exactly when a fresh twin
@@ -93,15 +113,24 @@ RULE = (
     "sizing mode (flow or box root) over probe leaves (Edit with caption/newlines/wide characters/any,space,clip wrap, "
     "SelectableIcon incl. cursor beyond the text, Button, CheckBox, RadioButton, Text, SolidFill); item options "
     "weight 1..3 / given need+0..3 / pack, dividechars 0..2, margins 0..2, every alignment, relative sizes 30..100%, "
-    "explicit or default focus positions.  The size is the tree's computed need plus 0..6 columns and 0..4 rows; a "
-    "render in which some probe is missing, clipped or not a full rectangle is discarded (fit precondition).  Per "
+    "explicit or default focus positions; a ListBox gets 0..5 rows less than its items need together (never less "
+    "than its tallest item), so it scrolls.  The size is the tree's computed need plus 0..6 columns and 0..4 rows; a "
+    "render in which some probe is missing, clipped or not a full rectangle is discarded (fit precondition; ListBox "
+    "items not rendered with focus may be scrolled out or cut, nothing is asserted about those).  Per "
     "case ALL cells of the rendered area are visited: one state-free mouse event per cell, one move_cursor_to_coords "
     "on a fresh tree per cell of a selectable leaf (accept == twin leaf, cursor == twin cursor translated, and for "
-    "Edit leaves literally: reported cursor row == requested row), plus a history of <=6 steps on the live tree "
+    "Edit leaves literally: reported cursor row == requested row), the state-free mouse event on a never drawn "
+    "fresh tree for the corners and centre of every leaf, plus a history of <=6 steps on the live tree "
     "(button-1 press on a cell / new text, caption or label for a leaf through its setter, text from the same "
-    "alphabet so rows grow and shrink / one of 14 keys to a selectable root); after each step the cursor agreement "
-    "is checked before and after the tree is drawn again (fit re-verified; a step that un-fits the tree ends the "
-    "history) and the state-free mouse sweep is repeated on the final state.  Non-trivial: >=2 nested "
+    "alphabet so rows grow and shrink / one of 14 keys to a selectable root / a focus or alignment setter of a "
+    "container or Edit.set_edit_pos in any supported spelling incl. the deprecated ones / a resize to need + "
+    "0..6 x 0..4 followed at once by a state-free mouse event at the new size); after each step the cursor "
+    "agreement is checked before and after the tree is drawn again, or (order bit of the step) against a rendering "
+    "made with the canvases of the previous drawing still referenced and then against a drawing with an empty cache "
+    "(fit re-verified; a step that un-fits the tree ends the history) and the state-free mouse sweep is repeated on "
+    "the final state.  Deterministic sweep before the campaign: 8 small trees (Pile, Columns, GridFlow, Frame, two "
+    "scrolling ListBoxes, Padding, Overlay over 1- and 2-row Edits; bare and in a LineBox; flow and box root) x "
+    "every setter spelling x 6 values x two calls x the 4 orders.  Non-trivial: >=2 nested "
     "container/decoration levels and a non-zero offset (second child, divider, margin/alignment, header, border, "
     "overlay)."
 )
@@ -114,8 +143,17 @@ ASSUMPTIONS = [
     "leaf rows()/pack() do not depend on focus or cursor position (Edit, SelectableIcon, Text, Button, CheckBox)",
     "a case during which urwid emits one of its sizing warnings is mis-built and discarded",
     "utf-8 encoding, default command_map",
-    "history steps use only public setters (Edit.set_edit_text/set_caption, Text.set_text, Button/CheckBox.set_label), "
-    "mouse_event and keypress on the root; an exception escaping keypress is not this property's (history ends)",
+    "history steps use only public setters (Edit.set_edit_text/set_caption/set_edit_pos, Text.set_text, "
+    "Button/CheckBox.set_label, focus_position and its deprecated spellings, ListBox.set_focus/set_focus_valign, "
+    "Padding.align, Overlay.set_overlay_parameters), mouse_event and keypress on the root; an exception escaping "
+    "keypress or a setter is not this property's (history ends)",
+    "fit precondition read as 'every widget on the way': children of a ListBox that are not rendered with focus may "
+    "be scrolled out or cut by its edge (they are excluded from the assertions of that drawing); everything else, and "
+    "the leaf rendered with focus, must be drawn in full",
+    "a mouse release / button 2,3 press / meta release changes no widget state, so the event a 'size' step sends "
+    "before the tree is drawn at the new size is judged on the drawing made right after it",
+    "render(size, True) with the previous root canvas still referenced (canvas cache warm) is a 'focused rendering' "
+    "of the widget in the sense of the statement, as is the one made after CanvasCache.clear()",
 ]
 
 MODE = "utf8"
@@ -224,6 +262,7 @@ PACKABLE = ("text", "icon")
 FLOW_ONLY = (*FLOW_LEAVES, "grid", "box")
 BOX_ONLY = ("fill", "frame", "filler", "over", "lb")
 NO_MOVE = ("frame", "lb", "over", "fill")  # kinds without move_cursor_to_coords
+SETTABLE = ("pile", "cols", "grid", "frame", "lb", "pad", "over")  # kinds with a focus / alignment setter (apply_set)
 # leaves that move their own cursor to the cell they accept (a Button / CheckBox / SelectableIcon keeps it where
 # the icon's cursor_position says, whatever row was asked for: nothing is asserted about their row)
 ROW_EXACT = ("edit",)
@@ -446,9 +485,12 @@ class Planner:
     def _p_lb(self, spec, mode):
         items = self._items(spec, 4)
         kids = [self.plan(it.get("n"), "F") for it in items]
+        # "cut": rows the list box gets less than all its items need together (it scrolls); never less than
+        # its tallest item needs, so whichever item has the focus can be shown in full
+        total, tallest = sum(kid["nr"] for kid in kids), max(kid["nr"] for kid in kids)
         return {
             "k": "lb", "mode": "B", "kids": kids, "f": self._focus(spec, len(kids)),
-            "nc": max(kid["nc"] for kid in kids), "nr": sum(kid["nr"] for kid in kids),
+            "nc": max(kid["nc"] for kid in kids), "nr": max(tallest, total - _int(spec.get("cut", 0), 0, 7)),
         }
 
     # -- single child -------------------------------------------------------------------------
@@ -572,11 +614,19 @@ class Registry:
     def __init__(self):
         self.log = []
         self.probes = []  # pid -> dict(w, node, sel, bg, mv)
+        self.conts = []  # containers / decorations in build order: dict(w, node)
 
 
 def build(node, reg, bg=False, mv=True, anc=(), fixes=frozenset()):
     """fresh widget tree for `node`.  bg: below an Overlay's bottom slot; mv: every widget from the
     root down to here implements move_cursor_to_coords; anc: kinds of the ancestors."""
+    w = _build(node, reg, bg, mv, anc, fixes)
+    if reg is not None and node["k"] not in LEAF_W:
+        reg.conts.append({"w": w, "node": node})
+    return w
+
+
+def _build(node, reg, bg, mv, anc, fixes):
     k = node["k"]
     kids = node["kids"]
     if k in LEAF_W:
@@ -723,6 +773,8 @@ def _same(a, b):
 
 
 MAX_AREA = 600
+NOTE_NEVER = " [never rendered tree]"
+NOTE_RESIZED = " [resized, not drawn since]"
 
 
 class Harness:
@@ -734,6 +786,8 @@ class Harness:
         self.known = {k: p for k, p in KNOWN.items() if k in active_known()}
         self.deferred = []
         self.reruns = {}
+        self.pending = None  # an event sent right after a resize, judged on the next drawing
+        self.steps = 0
         self.root_node = Planner().plan(case["tree"], self.mode)
         self.kinds = _kinds_of(self.root_node, set())
         cols = self.root_node["nc"] + _int(case.get("dc", 0), 0, 6)
@@ -854,25 +908,46 @@ class Harness:
             unfit("discard:canvas-size")  # C01's business
         grid = attr_grid(canv)
         rects = rectangles(grid)
-        rendered = {}
+        rendered, focused = {}, set()
         for e in reg.log:
             if e[0] == "render":
                 rendered.setdefault(e[1], set()).add((e[2], e[4], e[5]))
+                if e[3]:
+                    focused.add(e[1])
         sizes = {}
         for pid, p in enumerate(reg.probes):
             if p["bg"]:
                 continue
+            # a ListBox is the one container made to show part of its children: an item that does not lie on
+            # the focus chain may be scrolled out or cut by the edge of the list box.  Such a probe is no
+            # "cell where a child widget is drawn [in full]": it is taken out of `rects`, nothing is asserted
+            # about its cells in this drawing.  The leaf that is rendered with focus (the one the cursor
+            # clause is about) must be there in full like every probe outside a ListBox.
+            scrolls = "lb" in p["anc"] and pid not in focused
             got = rendered.get(pid)
             if not got:
+                if scrolls:
+                    rects.pop(pid, None)
+                    if count:
+                        stat("fit:listbox-item-scrolled-out")
+                    continue
                 unfit("discard:unfit:not-rendered")
             if len(got) != 1:
                 unfit("discard:rendered-at-two-sizes")
             size, ccols, crows = next(iter(got))
             rect = rects.get(pid)
+            bad = None
             if rect is None or ccols < 1 or crows < 1:
-                unfit("discard:unfit:hidden")
-            if rect[2] != ccols or rect[3] != crows or rect[4] != ccols * crows:
-                unfit("discard:unfit:clipped")
+                bad = "hidden"
+            elif rect[2] != ccols or rect[3] != crows or rect[4] != ccols * crows:
+                bad = "clipped"
+            if bad is not None:
+                if scrolls:
+                    rects.pop(pid, None)
+                    if count:
+                        stat("fit:listbox-item-" + bad)
+                    continue
+                unfit("discard:unfit:" + bad)
             sizes[pid] = size
         return canv, grid, rects, sizes
 
@@ -894,7 +969,7 @@ class Harness:
     # ---- clause 1 ---------------------------------------------------------------------------
     def initial(self, fixes):
         """fresh tree: asked for its cursor, drawn (fit check), asked again.
-        -> (root, reg, canvas, rects, sizes, violations of clause 1)"""
+        -> (root, reg, canvas, grid, rects, sizes, violations of clause 1)"""
         root, reg = self.fresh(fixes=fixes)
         has = hasattr(root, "get_cursor_coords")
         before = None
@@ -903,11 +978,11 @@ class Harness:
                 before = ("ok", self.raw(lambda: root.get_cursor_coords(self.size), "get_cursor_coords (never rendered tree)"))
             except Violation as v:
                 before = ("exc", v)
-        canv, _grid, rects, sizes = self.draw_raw(root, reg, count=fixes == self.fixes)
+        canv, grid, rects, sizes = self.draw_raw(root, reg, count=fixes == self.fixes)
         out = []
         if not has:
             # the root does not implement the cursor protocol (e.g. AttrMap over a SolidFill): outside the quantifier
-            return root, reg, canv, rects, sizes, out
+            return root, reg, canv, grid, rects, sizes, out
         if before[0] == "exc":
             out.append(before[1])
         elif before[1] != canv.cursor:
@@ -918,7 +993,7 @@ class Harness:
                 out.append(self.disagree("rendered tree", after, canv))
         except Violation as v:
             out.append(v)
-        return root, reg, canv, rects, sizes, out
+        return root, reg, canv, grid, rects, sizes, out
 
     def disagree(self, what, got, canv):
         return Violation(
@@ -939,47 +1014,52 @@ class Harness:
         stat("cursor:agree:" + ("none" if got is None else "coords"))
 
     # ---- clause 2 ---------------------------------------------------------------------------
-    def send(self, root, reg, grid, rects, event, button, c, r):
-        pid = pid_at(grid, c, r)
+    def send(self, root, reg, grid, rects, event, button, c, r, note=""):
+        """one mouse event to `root`, judged against the drawing (grid, rects) of a tree in the same state"""
         del reg.log[:]
         try:
-            self.guard(lambda: root.mouse_event(self.size, event, button, c, r, True), f"mouse_event at ({c},{r})")
-            if pid is None or reg.probes[pid]["bg"]:
-                stat("mouse:cell-outside-probes")
-                return
-            left, top = rects[pid][0], rects[pid][1]
-            kind = reg.probes[pid]["node"]["k"]
-            hits = [e for e in reg.log if e[0] == "mouse"]
-            others = sorted({e[1] for e in hits if e[1] != pid})
-            if others:
-                self.report(
-                    Violation(
-                        "mouse-only-to-drawn-child",
-                        f"{event!r} button {button} at ({c},{r}), where probe {pid} ({kind}) is drawn, was delivered to "
-                        f"probes {others}",
-                    )
-                )
-            mine = [e for e in hits if e[1] == pid]
-            if not mine:
-                self.report(
-                    Violation(
-                        "mouse-delivered",
-                        f"{event!r} button {button} at ({c},{r}): probe {pid} ({kind}) is drawn there (its rectangle "
-                        f"starts at ({left},{top})) but its mouse_event was not called",
-                    )
-                )
-            for e in mine:
-                if (e[5], e[6]) != (c - left, r - top):
-                    self.report(
-                        Violation(
-                            "mouse-relative-coords",
-                            f"{event!r} button {button} at ({c},{r}): probe {pid} ({kind}) drawn from ({left},{top}) "
-                            f"received (col,row) = ({e[5]},{e[6]}), expected ({c - left},{r - top})",
-                        )
-                    )
-            stat("mouse:delivered")
+            self.guard(lambda: root.mouse_event(self.size, event, button, c, r, True), f"mouse_event at ({c},{r}){note}")
+            self.judge([e for e in reg.log if e[0] == "mouse"], reg, grid, rects, event, button, c, r, note)
         except Skip:
             return
+
+    def judge(self, hits, reg, grid, rects, event, button, c, r, note=""):
+        """clause 2 for one delivered event: `hits` are the mouse_event calls the probes logged"""
+        pid = pid_at(grid, c, r)
+        if pid is None or reg.probes[pid]["bg"] or pid not in rects:
+            stat("mouse:cell-outside-probes")
+            return
+        left, top = rects[pid][0], rects[pid][1]
+        kind = reg.probes[pid]["node"]["k"]
+        size = f" of size {self.size}" if note else ""
+        others = sorted({e[1] for e in hits if e[1] != pid})
+        if others:
+            self.report(
+                Violation(
+                    "mouse-only-to-drawn-child",
+                    f"{event!r} button {button} at ({c},{r}){size}{note}, where probe {pid} ({kind}) is drawn, was "
+                    f"delivered to probes {others}",
+                )
+            )
+        mine = [e for e in hits if e[1] == pid]
+        if not mine:
+            self.report(
+                Violation(
+                    "mouse-delivered",
+                    f"{event!r} button {button} at ({c},{r}){size}{note}: probe {pid} ({kind}) is drawn there (its "
+                    f"rectangle starts at ({left},{top})) but its mouse_event was not called",
+                )
+            )
+        for e in mine:
+            if (e[5], e[6]) != (c - left, r - top):
+                self.report(
+                    Violation(
+                        "mouse-relative-coords",
+                        f"{event!r} button {button} at ({c},{r}){size}{note}: probe {pid} ({kind}) drawn from "
+                        f"({left},{top}) received (col,row) = ({e[5]},{e[6]}), expected ({c - left},{r - top})",
+                    )
+                )
+        stat("mouse:delivered" + note.replace(",", "").replace(" [", ":").replace("]", "").replace(" ", "-"))
 
     # ---- clause 3 ---------------------------------------------------------------------------
     def move_violation(self, fixes, c, r, pid, probe, rect, psize):
@@ -1062,7 +1142,7 @@ class Harness:
         # clause 1: a fresh tree is asked "without rendering", then drawn.  Nothing is reported before the fit
         # precondition holds on the drawing (initial() raises Discard otherwise).
         try:
-            root, reg, canv0, rects0, sizes0, found = self.initial(self.fixes)
+            root, reg, canv0, grid0, rects0, sizes0, found = self.initial(self.fixes)
         except RenderFailed as rf:
             v = rf.violation
             if self.collect is not None or self.attribute(v) is None:
@@ -1078,7 +1158,7 @@ class Harness:
         for v in found:
 
             def recheck(names, v=v):
-                return not any(_same(x, v) for x in self.initial(self.fixes | names)[5])
+                return not any(_same(x, v) for x in self.initial(self.fixes | names)[6])
 
             try:
                 self.report(v, recheck)
@@ -1096,23 +1176,45 @@ class Harness:
                 if not p["mv"]:
                     stat("move:path-without-method(skipped)")
                     continue
+                if pid not in rects0:
+                    continue
                 left, top, w, h, _n = rects0[pid]
                 for r in range(top, top + h):
                     for c in range(left, left + w):
                         self.move(c, r, pid, p, rects0[pid], sizes0[pid])
 
+        # clause 2 "without rendering": the event reaches a tree that was never drawn (nor asked anything) at any
+        # size - input that arrives before the first screen update.  What is drawn where is read off the first
+        # drawing of the twin above (same spec, same initial state).  A fresh tree per event, the corners and the
+        # centre of every probe's rectangle.
+        event, button = EVENTS[_int(self.case.get("ev", 0), 0, len(EVENTS) - 1)]
+        for pid in sorted(rects0):
+            if reg.probes[pid]["bg"]:
+                continue
+            left, top, w, h, _n = rects0[pid]
+            cells = {(left, top), (left + w - 1, top), (left, top + h - 1), (left + w - 1, top + h - 1), (left + w // 2, top + h // 2)}
+            for c, r in sorted(cells):
+                root2, reg2 = self.fresh()
+                self.send(root2, reg2, grid0, rects0, event, button, c, r, NOTE_NEVER)
+
         # clause 2: every cell, an event that changes no state, on the drawn tree
         canv, grid, rects, _sizes = self.draw(root, reg)
-        event, button = EVENTS[_int(self.case.get("ev", 0), 0, len(EVENTS) - 1)]
         for r in range(nrows):
             for c in range(ncols):
                 self.send(root, reg, grid, rects, event, button, c, r)
 
-        # history on the same tree: button-1 presses, content changes of a leaf, keys.  After every step the tree
-        # is asked for its cursor *without rendering*, then drawn again (fit precondition re-established on the new
-        # drawing, else the history ends there) and asked once more.
+        # history on the same tree: button-1 presses, content changes of a leaf, keys, focus / alignment setters of
+        # the containers, resizes.  After every step the tree is asked for its cursor *without rendering*, then drawn
+        # again (fit precondition re-established on the new drawing, else the history ends there) and asked once
+        # more.  The tree lives the way it does under a screen: the canvas of the previous drawing is still
+        # referenced (so the canvas cache still answers for whatever the step did not invalidate).  Bit j of
+        # case["ord"] decides the order for step j: 0 - the cursor is asked first; 1 - the tree is first rendered
+        # with those canvases kept (the next screen update), then asked.  Either way the fit precondition is then
+        # established on a drawing made with an empty cache, and the answer must agree with both renderings.
         applied = 0
+        order = int(self.case.get("ord", 0) or 0)
         for op in self.history():
+            self.pending = None
             try:
                 what = self.apply(op, root, reg, grid, rects, ncols, nrows)
             except Discard:
@@ -1122,7 +1224,18 @@ class Harness:
                 break
             if what is None:
                 continue
-            before = self.ask(root, f"get_cursor_coords ({what}, not rendered since)")
+            draw_first = (order >> (self.steps % 16)) & 1
+            self.steps += 1
+            live = None
+            if draw_first:
+                try:
+                    live = self.raw(lambda: root.render(self.size, True), "render (canvases of the previous drawing kept)")
+                    what_asked = f"{what}, rendered once since (canvases of the previous drawing still referenced)"
+                except Violation:
+                    draw_first = 0  # a rendering failure is not this property's; the drawing below decides
+            if not draw_first:
+                what_asked = f"{what}, not rendered since"
+            before = self.ask(root, f"get_cursor_coords ({what_asked})")
             try:
                 canv, grid, rects, _sizes = self.draw(root, reg, count=False)
             except Discard:
@@ -1134,16 +1247,23 @@ class Harness:
                 break
             applied += 1
             ncols, nrows = canv.cols(), canv.rows()
+            if self.pending is not None:
+                self.judge_pending(reg, grid, rects, ncols, nrows)
             if before is not None:
                 try:
                     if before[0] == "exc":
                         self.report(before[1])
+                    elif live is not None and before[1] != live.cursor:
+                        self.report(self.disagree(what_asked, before[1], live))
                     elif before[1] != canv.cursor:
-                        self.report(self.disagree(f"{what}, not rendered since", before[1], canv))
+                        self.report(self.disagree(what_asked, before[1], canv))
                     else:
                         stat("cursor:agree:" + ("none" if before[1] is None else "coords"))
+                        if live is not None:
+                            stat("cursor:agree:kept-canvases")
                 except Skip:
                     pass
+            live = None
             self.check_cursor(root, canv, f"{what}, rendered")
 
         # clause 2 again on the state the history ended in
@@ -1153,7 +1273,8 @@ class Harness:
                     self.send(root, reg, grid, rects, event, button, c, r)
 
     def history(self):
-        """ops of the case: ["click", kind, i] | ["text", i, what, new] | ["key", i]; the older "clicks" list first"""
+        """ops of the case: ["click", kind, i] | ["text", i, what, new] | ["key", i] | ["set", target, spelling, value] |
+        ["size", dc, dr, cell]; the older "clicks" list first"""
         out = [["click", cl[0], cl[1]] for cl in self.case.get("clicks") or []]
         out += [list(op) for op in self.case.get("ops") or [] if isinstance(op, (list, tuple)) and op]
         return out
@@ -1216,7 +1337,117 @@ class Harness:
                 raise Discard() from v
             stat("op:key")
             return f"after key {key!r}"
+        if kind == "set":
+            return self.apply_set(op, reg)
+        if kind == "size":
+            # the window is resized and input arrives before the next screen update (MainLoop handles a batch of
+            # 'window resize' + mouse input before it redraws): from here on every call carries the new size, and
+            # the first thing the tree sees at that size is a mouse event.  The event changes no state, so what it
+            # should have reached is read off the drawing that follows (judge_pending).
+            cols = self.root_node["nc"] + _int(op[1], 0, 6)
+            rows = self.root_node["nr"] + _int(op[2], 0, 4)
+            new = (cols, rows) if self.mode == "B" else (cols,)
+            if cols * rows > MAX_AREA or new == self.size:
+                return None
+            self.size = new
+            i = int(op[3])
+            # a flow root does not know its rows before it is drawn: the row is taken from the old drawing and the
+            # event is judged only if it turns out to lie inside the new one
+            c, r = i % cols, (i // cols) % (rows if self.mode == "B" else nrows)
+            event, button = EVENTS[_int(self.case.get("ev", 0), 0, len(EVENTS) - 1)]
+            del reg.log[:]
+            try:
+                self.raw(lambda: root.mouse_event(self.size, event, button, c, r, True), f"mouse_event at ({c},{r}){NOTE_RESIZED}")
+                held = ("ok", [e for e in reg.log if e[0] == "mouse"])
+            except Violation as v:
+                held = ("exc", v)
+            self.pending = (held, event, button, c, r)
+            stat("op:size")
+            return f"after a resize to {new} and {event!r} at ({c},{r})"
         return None
+
+    def judge_pending(self, reg, grid, rects, ncols, nrows):
+        held, event, button, c, r = self.pending
+        self.pending = None
+        if c >= ncols or r >= nrows:
+            stat("mouse:resized:event-outside-the-new-drawing")
+            return
+        try:
+            if held[0] == "exc":
+                self.report(held[1])
+            self.judge(held[1], reg, grid, rects, event, button, c, r, NOTE_RESIZED)
+        except Skip:
+            return
+
+    def apply_set(self, op, reg):
+        """the application moves the focus / the alignment through a public setter of a container, or the edit
+        position of an Edit (every spelling the library supports, deprecated ones included: they are what
+        existing applications call).  None of them changes what the tree needs."""
+        targets = [t for t in reg.conts if t["node"]["k"] in SETTABLE]
+        targets += [p for p in reg.probes if p["node"]["k"] == "edit" and not p["bg"]]
+        if not targets:
+            return None
+        t = targets[int(op[1]) % len(targets)]
+        w, node = t["w"], t["node"]
+        k, j, val = node["k"], int(op[2]), int(op[3])
+        if k == "edit":
+            n = val % (len(w.edit_text) + 1)
+            calls = [("set_edit_pos(%d)" % n, lambda: w.set_edit_pos(n)), ("edit_pos = %d" % n, lambda: setattr(w, "edit_pos", n))]
+        elif k in ("pile", "cols", "grid"):
+            n = val % len(w.contents)
+            child = w.contents[n][0]
+            calls = [
+                (f"focus_position = {n}", lambda: setattr(w, "focus_position", n)),
+                (f"set_focus({n})", lambda: w.set_focus(n)),
+                (f"set_focus(<child {n}>)", lambda: w.set_focus(child)),
+            ]
+            if k == "cols":
+                calls += [(f"set_focus_column({n})", lambda: w.set_focus_column(n)), (f"focus_col = {n}", lambda: setattr(w, "focus_col", n))]
+            if k == "grid":
+                calls += [(f"focus_cell = <child {n}>", lambda: setattr(w, "focus_cell", child))]
+        elif k == "frame":
+            parts = ["body"] + (["header"] if node["hdr"] else []) + (["footer"] if node["ftr"] else [])
+            part = parts[val % len(parts)]
+            calls = [(f"focus_position = {part!r}", lambda: setattr(w, "focus_position", part)), (f"set_focus({part!r})", lambda: w.set_focus(part))]
+        elif k == "lb":
+            n = val % len(w.body)
+            old = w.focus_position
+            frm = None if n == old else ("above" if old < n else "below")
+            va = VALIGNS[val % 4] if val % 4 < 3 else ("relative", val)
+            calls = [
+                (f"set_focus({n})", lambda: w.set_focus(n)),
+                (f"set_focus({n}, {frm!r})", lambda: w.set_focus(n, frm)),
+                (f"focus_position = {n}", lambda: setattr(w, "focus_position", n)),
+                (f"set_focus_valign({va!r})", lambda: w.set_focus_valign(va)),
+                (f"set_focus_valign({va!r})", lambda: w.set_focus_valign(va)),
+            ]
+        elif k == "pad":
+            al = ALIGNS[val % 4] if val % 4 < 3 else ("relative", val)
+            calls = [(f"align = {al!r}", lambda: setattr(w, "align", al))]
+        elif k == "over":
+            al = ALIGNS[val % 4] if val % 4 < 3 else ("relative", val)
+            va = VALIGNS[(val // 4) % 4] if (val // 4) % 4 < 3 else ("relative", 100 - val)
+            calls = [
+                (
+                    f"set_overlay_parameters({al!r}, <width>, {va!r}, <height>, <margins>)",
+                    lambda: w.set_overlay_parameters(
+                        al, _t(node["width"]), va, _t(node["height"]),
+                        left=node["ml"], right=node["mr"], top=node["mt"], bottom=node["mb"],
+                    ),
+                )
+            ]
+        else:
+            raise AssertionError(k)
+        name, call = calls[j % len(calls)]
+        try:
+            self.raw(call, f"{k}.{name}")
+        except Violation as v:
+            # what a setter does with a valid argument is not this property's: the history ends here
+            if self.collect is None:
+                stat(f"history:ended:setter-raises:{v.clause}")
+            raise Discard() from v
+        stat(f"op:set:{k}")
+        return f"after {k}.{name}"
 
 
 def check_tree(case):
@@ -1358,7 +1589,14 @@ def box_node(depth):
         st.fixed_dictionaries({"top": fl, "h": _k, **over_common}),
         st.fixed_dictionaries({"top": bx, "h": st.one_of(_g, _rel), **over_common}),
     )
-    lb = st.fixed_dictionaries({"k": st.just("lb"), "c": _kids(st.fixed_dictionaries({"n": fl}), 4), "f": _focus})
+    lb = st.fixed_dictionaries(
+        {
+            "k": st.just("lb"),
+            "c": _kids(st.fixed_dictionaries({"n": fl}), 4),
+            "f": _focus,
+            "cut": st.sampled_from([0, 0, 1, 2, 3, 5]),
+        }
+    )
     return st.one_of(_fill, pile, pile, cols, cols, frame, filler, filler, pad, over, lb, _line(bx), _attr(bx))
 
 
@@ -1372,11 +1610,14 @@ def case_strategy(depth):
     click = st.tuples(st.just("click"), st.integers(0, 1), st.integers(0, 2000)).map(list)
     text = st.tuples(st.just("text"), st.integers(0, 11), st.integers(0, 1), _txt).map(list)
     key = st.tuples(st.just("key"), st.integers(0, len(KEYS) - 1)).map(list)
-    ops = st.lists(st.one_of(click, click, text, text, key), max_size=6)
+    setter = st.tuples(st.just("set"), st.integers(0, 11), st.integers(0, 5), st.integers(0, 100)).map(list)
+    size = st.tuples(st.just("size"), st.sampled_from([0, 1, 2, 3, 6]), st.sampled_from([0, 1, 2, 4]), st.integers(0, 2000)).map(list)
+    ops = st.lists(st.one_of(click, click, text, text, key, setter, setter, size), max_size=6)
     # the history is drawn first: drawn after the (large) tree, Hypothesis leaves it empty in 60% of the examples
     return st.builds(
-        lambda ops, rt, dc, dr, ev: {"tree": rt[1], "mode": rt[0], "dc": dc, "dr": dr, "ev": ev, "ops": ops},
+        lambda ops, order, rt, dc, dr, ev: {"tree": rt[1], "mode": rt[0], "dc": dc, "dr": dr, "ev": ev, "ops": ops, "ord": order},
         ops,
+        st.integers(0, 63),
         root,
         st.sampled_from([0, 0, 1, 2, 3, 6]),
         st.sampled_from([0, 0, 1, 2, 4]),
@@ -1440,8 +1681,54 @@ def classify(case):
     return out
 
 
+# ---------------------------------------------------------------------------------------------
+# deterministic sweep: every setter spelling of every container kind, every order
+
+
+N_SPELLINGS = {"pile": 3, "cols": 5, "grid": 4, "frame": 2, "lb": 4, "pad": 1, "over": 1}  # distinct calls in apply_set
+
+
+def _e(txt, cap="", pos=0):
+    return {"k": "edit", "cap": cap, "txt": txt, "ml": 0, "al": 0, "wrap": 0, "pos": pos}
+
+
+def setter_cases():
+    """every container kind that has a focus / alignment setter, holding Edit leaves of 1 and 2 rows so that the
+    setter has an effect on the cursor (a ListBox with fewer rows than its items need, so that it scrolls), bare and
+    inside a LineBox (non-zero offset) x every spelling of the setter x 6 values x a second call of the same
+    setter with another value x both orders of "asked" / "drawn with the kept canvases" after either call; the
+    size alternates between the exact need and need + (3, 1)"""
+    a, b, c, d = _e("ab", pos=1), _e("b", "c\n"), _e("\u4e16c", ">", 2), _e("d")
+    filler = {"k": "filler", "n": b, "h": ["k"], "va": 1, "t": 0, "b": 0}
+    trees = [
+        ("F", {"k": "pile", "c": [{"o": ["k"], "n": a}, {"o": ["k"], "n": b}, {"o": ["w", 1], "n": c}], "f": None}),
+        ("F", {"k": "cols", "c": [{"o": ["w", 1], "box": 0, "n": a}, {"o": ["g", 1], "box": 0, "n": b}, {"o": ["w", 2], "box": 0, "n": c}], "div": 1, "f": None}),
+        ("F", {"k": "grid", "c": [{"n": a}, {"n": b}, {"n": c}, {"n": d}], "cwx": 1, "hs": 1, "vs": 1, "al": 0, "f": None}),
+        ("B", {"k": "frame", "body": filler, "hdr": a, "ftr": c, "fp": "body"}),
+        ("B", {"k": "lb", "c": [{"n": a}, {"n": b}, {"n": c}, {"n": d}], "f": None, "cut": 2}),
+        ("B", {"k": "lb", "c": [{"n": a}, {"n": b}, {"n": c}, {"n": d}], "f": 2, "cut": 3}),
+        ("F", {"k": "pad", "n": b, "w": ["g", 3], "al": 0, "l": 1, "r": 0}),
+        ("B", {"k": "over", "top": b, "h": ["k"], "bg": 0, "al": 1, "va": 1, "w": ["g", 2], "l": 1, "r": 0, "t": 0, "b": 1}),
+    ]
+    for natural, tree in trees:
+        for wrapped in (0, 1):
+            spec = {"k": "line", "n": tree, "title": "", "drop": []} if wrapped else tree
+            for mode in sorted({natural, "B"}):
+                for j in range(N_SPELLINGS[tree["k"]]):
+                    for val in range(6):
+                        for order in range(4):
+                            dc, dr = ((0, 0), (3, 1))[(val + order) % 2]
+                            yield {
+                                "tree": spec, "mode": mode, "dc": dc, "dr": dr, "ev": (val + j) % len(EVENTS),
+                                "ops": [["set", 0, j, val], ["set", 0, j, 3 * val + 1]], "ord": order,
+                            }
+
+
 def shard(ctx):
     depth = ctx.scale(3, 4)
+    ctx.sweep("tree", setter_cases(), nontrivial=nontrivial, classify=classify, exhaustive_name="setter spellings x orders")
+    if ctx.failure:
+        return
     ctx.given("tree", case_strategy(depth), ctx.scale(400, 4000), nontrivial=nontrivial, classify=classify)
     for label, n in sorted(STATS.items()):
         ctx.count("run:" + label, n)
